@@ -20,6 +20,7 @@ import (
 	"slices"
 	"sync"
 	"sync/atomic"
+	"time"
 	"unsafe"
 )
 
@@ -43,18 +44,22 @@ const (
 )
 
 type task struct {
-	id        int
-	wake      chan struct{}
-	done      bool
-	started   bool
-	blockedOn *RWMutex
-	wantWrite bool
-	site      int
-	fn        func()
-	panicVal  any
-	cw        []cwatch // Go memory handed to C by this task and not yet re-examined
-	permN     int      // evPerm: size of the requested permutation
-	perm      []int    // evPerm: the scheduler's answer
+	id          int
+	wake        chan struct{}
+	done        bool
+	started     bool
+	blockedOn   *RWMutex
+	wantWrite   bool
+	site        int
+	fn          func()
+	panicVal    any
+	cw          []cwatch // Go memory handed to C by this task and not yet re-examined
+	permN       int      // evPerm: size of the requested permutation
+	chanWait    bool     // parked in a channel operation that could not complete
+	chanEpoch   int      // value of Sim.chanEpoch when it parked
+	chanInexact bool     // parked in a SEND on an unbuffered channel (see SendTo)
+	chanDesc    string
+	perm        []int // evPerm: the scheduler's answer
 }
 
 // Sim is one simulated execution of a set of tasks.
@@ -78,6 +83,9 @@ type Sim struct {
 	SwitchInCrit int
 	lockDepth    int
 	Switches     int
+	ChanOps      int // channel operations of tasks inside the library that completed
+	ChanBlocks   int // of which had to park first
+	chanEpoch    int
 	MapOrders    int // range-over-map loops whose order was drawn from the choice stream
 	CArgs        int // Go objects handed to C by tasks
 	CWrites      int // of which modified by C
@@ -85,7 +93,7 @@ type Sim struct {
 	// last modification by C of a Go object that another task also handed to C (0 = none):
 	// Go source lines of the two cgo calls and the size of the object
 	CWSite, CWOther, CWBytes int
-	seq          int64
+	seq                      int64
 }
 
 // S is the active simulation (nil = scheduler off: Y is a no-op, locks are plain locks).
@@ -152,6 +160,10 @@ func (s *Sim) runnable(t *task) bool {
 	if t.blockedOn != nil {
 		return t.blockedOn.canGrant(t.wantWrite, t)
 	}
+	if t.chanWait {
+		// retry only after some channel operation completed or a channel was closed
+		return t.chanEpoch != s.chanEpoch
+	}
 	return true
 }
 
@@ -203,6 +215,7 @@ func (s *Sim) Run() []any {
 		s.SwitchDen = 1 + s.choose(len(budgets)-1, "sched.burst")
 	}
 	dead, capped := false, false
+	grace, graceEpoch := 0, -2
 	for {
 		var run []*task
 		for _, t := range s.tasks {
@@ -218,6 +231,23 @@ func (s *Sim) Run() []any {
 				}
 			}
 			if !all {
+				// tasks parked on a channel may be served by a goroutine outside the model (one the
+				// library started itself): give it (real) time before calling it a deadlock
+				waiters := 0
+				for _, t := range s.tasks {
+					if !t.done && t.chanWait {
+						waiters++
+						t.chanEpoch = -1
+					}
+				}
+				if waiters > 0 && grace < 40 {
+					if s.chanEpoch != graceEpoch {
+						graceEpoch, grace = s.chanEpoch, 0
+					}
+					grace++
+					time.Sleep(2 * time.Millisecond)
+					continue
+				}
 				dead = true
 			}
 			break
@@ -328,6 +358,15 @@ func (s *Sim) Run() []any {
 	runtime.RaceEnable()
 	// (no fmt / sync.Pool use while race synchronisation is disabled: pooled objects shared with
 	// the tasks would look racy)
+	if dead && !capped {
+		for _, t := range s.tasks {
+			if !t.done && t.chanInexact {
+				// two tasks meeting on an UNBUFFERED channel cannot be told from a deadlock by polling:
+				// no verdict; the per-run watchdog reports a stall (harness trouble, exit 2)
+				select {}
+			}
+		}
+	}
 	if dead {
 		if capped {
 			s.Deadlock = fmt.Sprintf("step cap %d reached (livelock?)", s.MaxSteps)
@@ -348,7 +387,9 @@ func (s *Sim) Run() []any {
 func (s *Sim) describeDeadlock() string {
 	d := "deadlock:"
 	for _, t := range s.tasks {
-		if !t.done {
+		if !t.done && t.chanWait {
+			d += fmt.Sprintf(" task %d blocked at line %d in a channel %s", t.id, t.site, t.chanDesc)
+		} else if !t.done {
 			d += fmt.Sprintf(" task %d blocked at line %d (write=%v)", t.id, t.site, t.wantWrite)
 		}
 	}
@@ -658,6 +699,91 @@ func flushC(t *task) {
 }
 
 // ---- iteration order of maps -------------------------------------------------------------
+
+// ---- channels ---------------------------------------------------------------------------
+//
+// A channel operation of a task inside the library (`ch <- v`, `<-ch`, `close(ch)`, rewritten by
+// the instrumenter to SendTo / Recv / Recv2 / Close) is tried without blocking; when it cannot
+// complete the task parks and the scheduler runs it again after some other channel operation
+// completed. For buffered channels and for closed channels that is exact. The real channel
+// operation is what finally happens, so the race detector sees the real happens-before edges.
+
+//go:norace
+func chanPark(s *Sim, t *task, desc string, inexact bool) {
+	s.ChanBlocks++
+	t.chanWait, t.chanEpoch, t.chanDesc, t.chanInexact = true, s.chanEpoch, desc, inexact
+	handoff(s, t, evBlocked)
+	t.chanWait, t.chanInexact = false, false
+}
+
+// SendTo(ch)(v) replaces `ch <- v`.
+func SendTo[T any](ch chan<- T) func(T) {
+	return func(v T) {
+		s, t := chanTask()
+		if s == nil {
+			ch <- v
+			return
+		}
+		for {
+			select {
+			case ch <- v:
+				chanDone(s)
+				return
+			default:
+			}
+			chanPark(s, t, "send", cap(ch) == 0)
+		}
+	}
+}
+
+// Recv(ch) replaces `<-ch`.
+func Recv[T any](ch <-chan T) T {
+	v, _ := Recv2(ch)
+	return v
+}
+
+// Recv2(ch) replaces the two-valued `v, ok := <-ch`.
+func Recv2[T any](ch <-chan T) (T, bool) {
+	s, t := chanTask()
+	if s == nil {
+		v, ok := <-ch
+		return v, ok
+	}
+	for {
+		select {
+		case v, ok := <-ch:
+			chanDone(s)
+			return v, ok
+		default:
+		}
+		chanPark(s, t, "receive", false)
+	}
+}
+
+// Close(ch) replaces `close(ch)`.
+func Close[T any](ch chan<- T) {
+	close(ch)
+	if s := S; s != nil {
+		chanDone(s)
+	}
+}
+
+//go:norace
+func chanDone(s *Sim) {
+	s.chanEpoch++
+	s.ChanOps++
+}
+
+// chanTask returns the running simulation and task (nil, nil when the scheduler is off).
+//
+//go:norace
+func chanTask() (*Sim, *task) {
+	s := S
+	if s == nil || s.cur == nil {
+		return nil, nil
+	}
+	return s, s.cur
+}
 
 // Ordered replaces `range m` over a map in the instrumented library. Go randomises the
 // iteration order per execution; with a yield before every statement that alone would make
